@@ -2,7 +2,7 @@
 # tools/seed_import.sh <PID> <srcdir> -- copy seeded_C / seeded_D produced by a sub-agent in a scratch worktree into
 # /verif/seeded/<PID>_C, _D and evaluate each (tools/seed_eval.sh).
 PID=$1; SRC=$2
-for K in C D; do
+for K in ${KS:-C D}; do
   if [ -f $SRC/seeded_$K/patch.diff ]; then
     mkdir -p /verif/seeded/${PID}_$K
     cp $SRC/seeded_$K/patch.diff $SRC/seeded_$K/demo.py $SRC/seeded_$K/meta.json /verif/seeded/${PID}_$K/ 2>/dev/null
